@@ -21,6 +21,17 @@ type Scenario struct {
 	// CustomPayload: the node signs a non-default payload (ManagerOptions.SignaturePayloadProvider).
 	CustomPayload bool   `json:"custom_payload,omitempty"`
 	Steps         []Step `json:"steps"`
+	// Faults[i] (optional, parallel to Steps): what the machine does around step i.
+	Faults []Fault `json:"faults,omitempty"`
+}
+
+// Fault: StoreFail k>0 makes the k-th durable write of the step fail with an I/O error; when the
+// production step gives up because of it the node is shut down and started again on what is on
+// disk (FullNode.Run does that on any error of the aggregation loop). Restart: a clean stop and
+// start after the step.
+type Fault struct {
+	StoreFail int  `json:"store_fail,omitempty"`
+	Restart   bool `json:"restart,omitempty"`
 }
 
 func genTx(t *rapid.T) []byte {
@@ -103,6 +114,17 @@ func genScenario(t *rapid.T) Scenario {
 	for i := 0; i < n; i++ {
 		sc.Steps = append(sc.Steps, genStep(t))
 	}
+	if rapid.IntRange(0, 2).Draw(t, "withfaults") == 0 {
+		sc.Faults = make([]Fault, n)
+		for i := range sc.Faults {
+			switch rapid.IntRange(0, 7).Draw(t, "fault") {
+			case 0:
+				sc.Faults[i].StoreFail = rapid.IntRange(1, 6).Draw(t, "storefail")
+			case 1:
+				sc.Faults[i].Restart = true
+			}
+		}
+	}
 	return sc
 }
 
@@ -113,9 +135,30 @@ func run(sc Scenario, dir string) world.Verdict {
 	}
 	committed, empties, nonempties, bad := 0, 0, 0, 0
 	labels := map[string]bool{}
+	restarted := false
 	for i, st := range sc.Steps {
+		var f Fault
+		if i < len(sc.Faults) {
+			f = sc.Faults[i]
+		}
+		if f.StoreFail > 0 {
+			p.Raw.ArmErrorAfter(f.StoreFail - 1)
+		}
 		r := p.Step(st)
+		p.Raw.Disarm()
 		before, after := r.Before, r.After
+		if (f.StoreFail > 0 && r.Err != nil) || f.Restart {
+			if f.StoreFail > 0 && r.Err != nil {
+				labels["store-write-failed"] = true
+			} else {
+				labels["clean-restart"] = true
+			}
+			if err := p.RestartOn(world.FromImage(p.Raw.Image())); err != nil {
+				return world.Fail("C01/restart-fails", "after step %d (fault %+v, err=%v) the node cannot start on its own store: %v", i, f, r.Err, err)
+			}
+			restarted = true
+			after, _ = p.N.Store.Height(p.Ctx)
+		}
 		if r.Panic != nil {
 			return world.Fail("C01/panic", "step %d panicked: %v", i, r.Panic)
 		}
@@ -141,7 +184,7 @@ func run(sc Scenario, dir string) world.Verdict {
 		if st.ExecFail {
 			labels["exec-fail"] = true
 		}
-		if pr := p.Oracle(fmt.Sprintf("after step %d", i), true, true); pr != nil {
+		if pr := p.Oracle(fmt.Sprintf("after step %d", i), !(f.StoreFail > 0 && r.Err != nil), !restarted); pr != nil {
 			return world.Fail("C01/"+pr.Sig, "%s", pr.Msg)
 		}
 	}
@@ -157,7 +200,7 @@ func run(sc Scenario, dir string) world.Verdict {
 			sig := "C01/stuck"
 			return world.Fail(sig, "producer cannot produce although responses are well-formed again: epilogue step %d left height at %d (err=%v)", k, after, err)
 		}
-		if pr := p.Oracle(fmt.Sprintf("after epilogue step %d", k), true, true); pr != nil {
+		if pr := p.Oracle(fmt.Sprintf("after epilogue step %d", k), true, !restarted); pr != nil {
 			return world.Fail("C01/"+pr.Sig, "%s", pr.Msg)
 		}
 	}
